@@ -1,12 +1,15 @@
 import RbModel.Sexp
 import RbModel.Expr
+import RbModel.FloatLit
 /-! Line-protocol handlers for `RbModel.Expr` (requests `expr.*`).
 
 Source expressions: `(a n)` operand, `(p s)` parenthesis, `(ab n o s)` operand-operator-rest,
 `(pb s o s)` parenthesis-operator-rest, `(u k s)` prefix operator; operators are the indices of
-`Op.idx` / `UOp.idx`.  Trees: `(l n)`, `(p t)`, `(u k t)`, `(b o l r)`. -/
+`Op.idx` / `UOp.idx`.  Trees: `(l n)`, `(p t)`, `(u k t)`, `(b o l r)`.
+`expr.frac neg (int digits) (fraction digits) pound`: a literal with a fraction; the answer gives the sign
+bit and the magnitude as `m e` (`m` odd, value `m * 2^e`) or `inf`. -/
 namespace RbModel.Drv.Expr
-open RbModel RbModel.Expr
+open RbModel RbModel.Expr RbModel.FloatLit
 
 def opOfNat? (n : Nat) : Option Op := Op.all[n]?
 
@@ -46,6 +49,31 @@ def lit? : Sexp → Option Lit
 
 def digitsOk (base : Nat) (ds : List Nat) : Bool := ds.all (· < base)
 
+/-- Number of trailing zero bits of a positive natural (fuel: the bit length). -/
+def trailingZeros : Nat → Nat → Nat
+  | 0, _ => 0
+  | fuel + 1, n => if n % 2 = 0 ∧ n ≠ 0 then trailingZeros fuel (n / 2) + 1 else 0
+
+/-- A non-negative dyadic rational as `m e` with `value = m * 2^e` and `m` odd (`0 0` for zero);
+`none` if the denominator is not a power of two (cannot happen for a rounded value). -/
+def dyadicStr (r : Rat) : Option String :=
+  let n := r.num.natAbs
+  let ld := r.den.log2
+  if 2 ^ ld ≠ r.den then none
+  else if n = 0 then some "0 0"
+  else
+    let t := trailingZeros (n.log2 + 1) n
+    some s!"{n / 2 ^ t} {(t : Int) - (ld : Int)}"
+
+def fvalStr : FVal → Option String
+  | .fin s m => do pure s!"{if s then 1 else 0} {← dyadicStr m}"
+  | .inf s => pure s!"{if s then 1 else 0} inf"
+
+/-- `(single sign m e)` / `(double sign m e)` / `(single sign inf)`. -/
+def flitStr : FLit → Option String
+  | .single v => do pure s!"(single {← fvalStr v})"
+  | .double v => do pure s!"(double {← fvalStr v})"
+
 def handle (cmd : String) (args : List Sexp) : Option String :=
   match cmd, args with
   | "expr.parse", [s] => do
@@ -80,6 +108,15 @@ def handle (cmd : String) (args : List Sexp) : Option String :=
   | "expr.negoct", [ds] => do
       let ds ← ds.nats?
       if digitsOk 8 ds then pure (litStr (negLit (octLit ds))) else none
+  | "expr.frac", [neg, ids, fds, pound] => do
+      let neg ← neg.bool?
+      let ids ← ids.nats?
+      let fds ← fds.nats?
+      let pound ← pound.bool?
+      if digitsOk 10 ids && digitsOk 10 fds && !fds.isEmpty then
+        let t : FracTok := ⟨ids, fds, pound⟩
+        flitStr (if neg then negFracLit t else fracLit t)
+      else none
   | "expr.neg", [l] => do
       let l ← lit? l
       pure (litStr (negLit l))
